@@ -142,7 +142,12 @@ def _run_block(pid: str, tier: str, base: int, lo: int, hi: int, deadline: float
             if c < 2:
                 agg["viol"].append({"seed": seed, "index": idx, "scenario": scn, "violation": v})
         if len(agg["samples"]) < 1 and out["nontrivial"] and not out["violations"]:
-            agg["samples"].append({"seed": seed, "scenario": scn, "history": out["history"]})
+            try:
+                small_enough = len(json.dumps(scn, default=repr)) + len(json.dumps(out["history"], default=repr)) < 12000
+            except Exception:
+                small_enough = False
+            if small_enough:  # keep evidence files readable: huge scenarios (bursts, >64 KiB frames) are not used as samples
+                agg["samples"].append({"seed": seed, "scenario": scn, "history": out["history"]})
     agg["per_sig"] = per_sig
     agg["isigs"] = list(agg["isigs"])
     return agg
